@@ -567,6 +567,7 @@ Definition renumber (d : doc) : doc * out :=
      for (id, object) in &self.objects { unless type_name is ObjStm / XRef / Linearized: write, xref.insert(id.0, ..) }
      Table : write_xref; write_trailer            -> trailer.set("Size", max_id + 1)
      Stream: write_cross_reference_stream         -> max_id += 1; trailer.set(Type, Size, W, Index, -Filter, Length)
+   save_internal begins by raising max_id to the largest object number (/repo 19ab1a6), before anything can fail.
    A Vec<u8> sink never fails.  In the Stream case `self.max_id + 1` (for Size) is a second checked addition AFTER
    `self.max_id += 1` and `trailer.set("Type", XRef)`: at max_id = u32::MAX - 1 it panics with both already done. *)
 Definition K_ObjStm := Eval cbv in bs "ObjStm".
@@ -583,7 +584,13 @@ Definition with_state (d : doc) (st : SaveState.sstate) : doc :=
 Definition state_of (d : doc) : SaveState.sstate :=
   {| SaveState.s_max_id := d_max_id d; SaveState.s_trailer := d_trailer d |}.
 
+(* self.max_id = self.objects.keys().next_back().map_or(self.max_id, |id| self.max_id.max(id.0))   (/repo 19ab1a6):
+   the largest key of the BTreeMap carries the largest object number *)
+Definition top_number (m : objmap) : N := fold_right N.max 0%N (map (fun io => fst (fst io)) m).
+Definition raise_max (d : doc) : doc := with_max d (N.max (d_max_id d) (top_number (d_objects d))).
+
 Definition save_effect (stream : bool) (d : doc) : doc * out :=
+  let d := raise_max d in
   if (U32_MAX <=? d_max_id d)%N then (d, OPanic)
   else if negb (forallb (fun b => (128 <=? N_of_byte b)%N) (d_binary_mark d)) then (d, OErr)
   else if stream then
